@@ -236,7 +236,7 @@ PROPS["C04"] = dict(
     module="Cfdp.Props.C04",
     namespace="Cfdp.Loop",
     theorems=["C04_final", "C04_late", "Cfdp.Send.C04_sender"],
-    engines=["recv", "send"],
+    engines=["recv", "send", "net"],
     design="§6 C04",
     technique="Lean 4 invariant proofs over all event histories of the receiver and sender models + differential correspondence",
     level_text=("Kernel-checked: once the receiver model has left ReceiveData (delivery reported, or cancelled) no history of loop events of any length - PDUs of "
@@ -250,7 +250,8 @@ PROPS["C04"] = dict(
     level_note=RECV_SEND_NOTE + " The daemon's re-spawning of a receive transaction for a PDU that arrives after the transaction ended (lib.rs) is outside these models: see C11.",
     rule=("recv engine: seeded histories over both modes, closure on/off, immediate/deferred NAK, 0..6 segment files, filestore requests (append: non-idempotent); "
           "after the first Finished indication the script re-delivers 1-2 earlier PDUs (data, EOF, metadata, prompt) and lets ACK(Finished) get lost. "
-          "send engine: Finished PDUs with every delivery code / condition. Non-trivial = a PDU was emitted or an indication raised."),
+          "send engine: Finished PDUs with every delivery code / condition. Non-trivial = a PDU was emitted or an indication raised."
+          " net engine (300 quick / 3000 thorough two-party histories): one real SendTransaction and one real RecvTransaction joined by a simulated link that delivers only PDUs the other side emitted (in order, lost, duplicated, reordered, as stragglers), random schedules of transmissions, deliveries, timer expiries and user requests at both sides, then a loss-free fair phase on the shared virtual clock until both have ended; every call is answered in lockstep by the Lean sender and receiver models (ops net s / net r), the per-side oracles of the send / recv engines keep running, and two-party oracles are added: C02 recovers / same_outcome (acknowledged mode, losses confined to a zero-time phase, default handlers: both sides report success), C03 net_bounded / net_never_stuck, C04 sender_success_only_after_receiver, C01 two_party_file."),
     assumptions=["C04_late: the late EOF's file size is not below the end of the data held (true of any retransmission of the original EOF)"],
     unproved=["the daemon-level part (a PDU for an already ended transaction spawning a fresh receive transaction) is C11"],
 )
@@ -410,7 +411,7 @@ PROPS["C01"] = dict(
     module="Cfdp.Props.Net",
     namespace="Cfdp.Loop",
     theorems=["C01_delivered_is_source", "Cfdp.Net.C01_two_party", "good_recvStep", "Cfdp.Recv.fin_core", "Cfdp.Recv.dataOk_complete", "Cfdp.Recv.writeAt_get"],
-    engines=["recv", "send", "seg", "cksum"],
+    engines=["recv", "send", "seg", "cksum", "net"],
     design="§6 C01",
     technique="Lean 4 invariant proof over all event histories of the receiver model (staging-file content, segment list, filestore), using C09, C04, C13, C18 + differential correspondence",
     level_text=("Kernel-checked: let the link deliver - in any order, with any losses and duplications, interleaved with timer expirations, transmissions and user requests - only "
@@ -422,15 +423,16 @@ PROPS["C01"] = dict(
                 "semantics of seek+write incl. zero-filled holes; merge_cov from C09), completeness = every byte of [0, size) covered makes the staging file equal to src "
                 "(dataOk_complete), Retained is only recorded after the whole staging file was written under the destination name, and once the transaction has left "
                 "ReceiveData file, status and delivery code never change again (C04). A truncated, holed or stale file cannot be reported Complete: C18_complete_means_complete. "
-                "The sender reports Complete only on the receiver's word (C04_sender). Two parties (C01_two_party in Props/Net.lean, model Model/Net.lean): the sender task loop, the receiver task loop and a link that may lose, duplicate, reorder and delay PDUs in both directions without bound (it may deliver any PDU ever transmitted, any number of times, at any time), under every interleaving of loop iterations, timer expiries and user requests at either side: if the receiver's record says Retained / Complete, the destination holds exactly the sender's source file (the sender's PDUs are truthful by C07_data / C07_eof, which is what C01_delivered_is_source asks of the link). Tie to the code: recv engine (staging-file handle, segment list and the full directory "
+                "The sender reports Complete only on the receiver's word (C04_sender). Two parties (C01_two_party in Props/Net.lean, model Model/Net.lean): the sender task loop, the receiver task loop and a link that may lose, duplicate, reorder and delay PDUs in both directions without bound (it may deliver any PDU ever transmitted, any number of times, at any time), under every interleaving of loop iterations, timer expiries and user requests at either side: if the receiver's record says Retained / Complete, the destination holds exactly the sender's source file (the sender's PDUs are truthful by C07_data / C07_eof, which is what C01_delivered_is_source asks of the link). Tie to the code: net engine (the two-party model in lockstep with a real sender and a real receiver), recv engine (staging-file handle, segment list and the full directory "
                 "listing with content digests compared after every call; oracle delivered_equals_source reads the real destination file), send engine, seg, cksum engines."),
     level_note=RECV_SEND_NOTE + " Identity does not rest on the checksum when the sender is truthful; corrupted PDUs are the subject of C15 (CRC) and C14 (checksum); "
                "'cross-wired' files between transactions are C11.",
     rule=("recv engine as in C04 (contents: linear, all-zero and checksum-neutral patterns; sizes 0, 1, seg-1, seg, seg+1, 3 seg, 3 seg+5; both modes, closure, immediate/deferred, "
           "delay, CRC, Modular/Null checksum; loss, duplication, reordering, re-segmentation, wrong checksums, short EOFs) + send, seg, cksum engines. "
-          "Oracles delivered_equals_source, complete_without_data. Non-trivial = a PDU was emitted or an indication raised."),
+          "Oracles delivered_equals_source, complete_without_data. Non-trivial = a PDU was emitted or an indication raised."
+          " net engine (300 quick / 3000 thorough two-party histories): one real SendTransaction and one real RecvTransaction joined by a simulated link that delivers only PDUs the other side emitted (in order, lost, duplicated, reordered, as stragglers), random schedules of transmissions, deliveries, timer expiries and user requests at both sides, then a loss-free fair phase on the shared virtual clock until both have ended; every call is answered in lockstep by the Lean sender and receiver models (ops net s / net r), the per-side oracles of the send / recv engines keep running, and two-party oracles are added: C02 recovers / same_outcome (acknowledged mode, losses confined to a zero-time phase, default handlers: both sides report success), C03 net_bounded / net_never_stuck, C04 sender_success_only_after_receiver, C01 two_party_file."),
     assumptions=["the PDUs delivered belong to a transfer of one fixed file src (hypothesis TruthfulEv); what a link may do to them is unrestricted"],
-    unproved=["the link of the two-party model does not alter PDUs (corruption is C15) and carries one transaction (routing is C11); the composed model is run against two real daemons by the daemon engine, not compared step by step"],
+    unproved=["the link of the two-party model does not alter PDUs (corruption is C15) and carries one transaction (routing is C11)"],
 )
 
 PROPS["C03"] = dict(
@@ -438,7 +440,7 @@ PROPS["C03"] = dict(
     module="Cfdp.Props.C03s",
     namespace="Cfdp.Loop",
     theorems=["C03_recv_never_stuck", "C03_send_never_stuck", "Cfdp.Recv.C03_recv_inactivity_limit"],
-    engines=["recv", "send"],
+    engines=["recv", "send", "net"],
     design="§6 C03",
     technique="Lean 4 invariant proofs over all event histories of the receiver and sender models (a timer is always running or a PDU is queued) + limit-to-termination step theorems; bounded termination of the real state machines checked by a drain phase on the virtual clock",
     level_text=("Kernel-checked. Receiver: after every history of loop events a receive transaction that is neither terminated nor suspended has its inactivity timer "
@@ -454,7 +456,8 @@ PROPS["C03"] = dict(
     level_note=RECV_SEND_NOTE + " 'The daemon keeps serving other transactions meanwhile' is C11. Transactions the user suspended, or whose limit faults are configured ignore / "
                "suspend, are exempt as the property says.",
     rule=("recv + send engines as in C04/C07; one history in three is cut at a random point (blackout of both directions from there on), every history is followed by the drain "
-          "phase. Oracles never_stuck, bounded. Non-trivial = a PDU was emitted or an indication raised."),
+          "phase. Oracles never_stuck, bounded. Non-trivial = a PDU was emitted or an indication raised."
+          " net engine (300 quick / 3000 thorough two-party histories): one real SendTransaction and one real RecvTransaction joined by a simulated link that delivers only PDUs the other side emitted (in order, lost, duplicated, reordered, as stragglers), random schedules of transmissions, deliveries, timer expiries and user requests at both sides, then a loss-free fair phase on the shared virtual clock until both have ended; every call is answered in lockstep by the Lean sender and receiver models (ops net s / net r), the per-side oracles of the send / recv engines keep running, and two-party oracles are added: C02 recovers / same_outcome (acknowledged mode, losses confined to a zero-time phase, default handlers: both sides report success), C03 net_bounded / net_never_stuck, C04 sender_success_only_after_receiver, C01 two_party_file."),
     assumptions=["the runtime wakes the task when the computed sleep is over (tokio timers) and grants the link when asked (bounded channel with a live consumer)"],
     unproved=["the numeric bound as a theorem (termination measure over NAK queue, counters and phases); checked by the drain oracle bounded"],
 )
@@ -528,7 +531,7 @@ PROPS["C02"] = dict(
     module="Cfdp.Props.C02",
     namespace="Cfdp.Seg",
     theorems=["C02_round_completes", "C02_gaps_answered", "Cfdp.Recv.C02_finishes_when_complete"],
-    engines=["daemon", "recv", "send"],
+    engines=["daemon", "recv", "send", "net"],
     design="§6 C02",
     technique="Lean 4 proofs of the recovery steps over the segment / receiver / sender models; the composition over a lossy link is checked on two real daemons under a virtual clock with bounded fault plans",
     level_text=("Kernel-checked recovery steps: whatever the receiver holds, if the data PDUs that arrive afterwards - in any order, duplicated, cut into any pieces - together cover "
@@ -544,7 +547,8 @@ PROPS["C02"] = dict(
     rule=("daemon engine: 40 (quick) / 400 (thorough) acknowledged transfers, files of 0, 1, seg-1, seg, seg+1, 3 seg, 5 seg+7 octets, segment 32/64/128, limit 3/4, timeouts 1-3 s, "
           "deferred / immediate NAK with delay 0 / 300 ms, closure, CRC on/off; fault plans of fewer than `limit` faults: drop / duplicate / delay (50-450 ms) placed either on PDU "
           "indices of each direction or on the 1st, 2nd ... transmission of a PDU kind (metadata, data, EOF, ACK, NAK, Finished). recv / send engines as in C04/C07 for the "
-          "per-side steps. Non-trivial = a routing line with at least one delivered PDU / a PDU emitted."),
+          "per-side steps. Non-trivial = a routing line with at least one delivered PDU / a PDU emitted."
+          " net engine (300 quick / 3000 thorough two-party histories): one real SendTransaction and one real RecvTransaction joined by a simulated link that delivers only PDUs the other side emitted (in order, lost, duplicated, reordered, as stragglers), random schedules of transmissions, deliveries, timer expiries and user requests at both sides, then a loss-free fair phase on the shared virtual clock until both have ended; every call is answered in lockstep by the Lean sender and receiver models (ops net s / net r), the per-side oracles of the send / recv engines keep running, and two-party oracles are added: C02 recovers / same_outcome (acknowledged mode, losses confined to a zero-time phase, default handlers: both sides report success), C03 net_bounded / net_never_stuck, C04 sender_success_only_after_receiver, C01 two_party_file."),
     assumptions=["bounded faults: fewer than `limit` faults per transfer, delays below the timers (as the property states)"],
     unproved=["the two-party liveness composition (see level text): checked dynamically, not proved"],
 )
